@@ -162,7 +162,12 @@ class Judge:
         spec_file = out_dir / 'spec.json'
         spec_file.write_text(json.dumps(spec))
         env = dict(self.env, PYTHONHASHSEED=hashseed)
-        proc = subprocess.run([PYTHON, '-c', CHILD, str(spec_file)], capture_output=True, env=env, timeout=900, cwd=str(out_dir))
+        try:
+            proc = subprocess.run([PYTHON, '-c', CHILD, str(spec_file)], capture_output=True, env=env, timeout=600, cwd=str(out_dir))
+        except subprocess.TimeoutExpired:
+            shutil.rmtree(out_dir, ignore_errors=True)
+            self.count('children_timed_out')
+            return None
         shutil.rmtree(out_dir, ignore_errors=True)
         for line in proc.stdout.decode('utf-8', 'replace').splitlines():
             if line.startswith('FJVERIF-RESULT '):
@@ -386,6 +391,8 @@ def replay_case(record: Dict[str, Any], journal: Any) -> Dict[str, Any]:
 
 def finalize(tier: str, seed: int, counters: Dict[str, Any], evaluations: int, distinct: int) -> Dict[str, Any]:
     inconclusive = []
+    if counters.get('children_timed_out'):
+        inconclusive.append(f'{counters["children_timed_out"]} assembling child processes exceeded 600 s')
     if counters.get('histories', 0) < 40:
         inconclusive.append(f'only {counters.get("histories", 0)} histories compared')
     if counters.get('history_steps_failed', 0) < 20:
